@@ -51,6 +51,30 @@ CHECKS.update({
             "TLA+ spec + TLC trace validation; compiler lint for the unsafe clause", "5 (C20), 7"),
 })
 
+CHECKS.update({
+    "C07": ("model_checking", "TLC explores every acceptance schedule of an arbitrary sink against a producer of builder calls (MC_Sink: Counted, SinkExact, "
+            "PrefixAlways); the real builders run against scripted sinks (every cap 1..16, every single short write, interrupts, "
+            "pre-filled sinks, BufWriter, random schedules) and every write/flush/call with bytes_written() plus the final bytes are "
+            "validated by TLC against FstSink and FstFormat.",
+            "TLA+ spec + TLC model checking + trace validation", "5 (C07)"),
+    "C11": ("fault_enumeration", "For every explored key sequence every write index 0..W-1 and the flush fail once (4 failure kinds, directly and behind a "
+            "BufWriter); TLC validates against FstSink that the enclosing call returns Err(Io), never panics, and that finish is never Ok "
+            "without all bytes accepted and flushed; MC_Sink shows NoSilentSuccess for every schedule at design level.",
+            "fault enumeration judged by TLC trace validation against the TLA+ sink spec", "5 (C11)"),
+})
+
+CHECKS.update({
+    "C12": ("model_checking", "TLC shows no duplicate node without eviction, the trie bound and set minimality for every history and cache "
+            "behaviour in scope (MC_Build); every node-compile event of real builds (hook H2) is validated by TLC: sound hits, "
+            "re-emission only after an eviction, minimality against right languages computed by TLC, corpus-scale minimality and "
+            "sharing ratio.",
+            "TLA+ spec + TLC model checking + trace validation of hook events", "5 (C12)"),
+    "C15": ("model_checking", "TLC validates that every build of the same (type, sequence) through every construction entry point, repeated, across "
+            "threads and across processes yields the same digest; MC_Build shows the emitted nodes are a function of the accepted "
+            "sequence and the cache behaviour only.",
+            "TLA+ spec + TLC trace validation", "5 (C15)"),
+})
+
 NOT_YET = {
 }
 
